@@ -30,10 +30,14 @@ func vParseDurationCB(s string) (time.Duration, error) {
 
 func verifC13_CircuitBreakerPolicy() {
 	vParsedCB = map[string]time.Duration{}
+	// numeric ranges are read from the jsonschema tags of the current source (vSchemaInt)
+	tmin := func(f string) int64 { return int64(vSchemaInt(CircuitBreakerPolicy{}, f, "minimum", 0)) }
+	tmax := func(f string) int64 { return int64(vSchemaInt(CircuitBreakerPolicy{}, f, "maximum", 255)) }
+	wmin := vSchemaInt(CircuitBreakerPolicy{}, "SlidingWindowSize", "minimum", 0)
 	p := &CircuitBreakerPolicy{
-		FailureRateThreshold:             uint8(verifInt("failureRateThreshold", 1, 100)),
-		SlowCallRateThreshold:            uint8(verifInt("slowCallRateThreshold", 1, 100)),
-		SlidingWindowSize:                uint32(verifChoose("slidingWindowSize-1", verifBound("maxWindow")) + 1),
+		FailureRateThreshold:             uint8(verifInt("failureRateThreshold", tmin("FailureRateThreshold"), tmax("FailureRateThreshold"))),
+		SlowCallRateThreshold:            uint8(verifInt("slowCallRateThreshold", tmin("SlowCallRateThreshold"), tmax("SlowCallRateThreshold"))),
+		SlidingWindowSize:                uint32(verifChoose("slidingWindowSize-min", verifBound("maxWindow")+1-wmin) + wmin),
 		PermittedNumberOfCallsInHalfOpen: uint32(verifChoose("permittedNumberOfCallsInHalfOpenState", 3)),
 		MinimumNumberOfCalls:             uint32(verifChoose("minimumNumberOfCalls", verifBound("maxWindow")+2)),
 		CountingNetworkError:             verifBool("countingNetworkError"),
